@@ -473,7 +473,7 @@ func (q *Branch) ToProto() *webserverv1.Branch {
 }
 
 func RawConfigFromProto(p *webserverv1.RawConfig) (res RawConfig) {
-	for _, protoFlag := range p.Flags {
+	for _, protoFlag := range p.GetFlags() {
 		switch protoFlag {
 		case webserverv1.RawConfig_FLAG_ONLY_PUBLIC:
 			res |= RcOnlyPublic
